@@ -8,6 +8,8 @@ import (
 	"time"
 
 	"github.com/postalsys/muti-metroo/internal/identity"
+	"github.com/postalsys/muti-metroo/internal/protocol"
+	"github.com/postalsys/muti-metroo/internal/verifrt/simnet"
 	"github.com/postalsys/muti-metroo/internal/verifrt/simrt"
 )
 
@@ -20,7 +22,7 @@ import (
 // WatchAdverts records every route advertisement crossing any link.
 
 // checkLoopFree: no stored route has a path that repeats an agent or contains the holder.
-func checkLoopFree(m *Mesh, when string) {
+func CheckLoopFree(m *Mesh, when string) {
 	for i, nd := range m.Nodes {
 		if !nd.Running {
 			continue
@@ -218,3 +220,476 @@ func runC13() {
 }
 
 // SortedKeys is a helper for deterministic iteration.
+
+var hopLimits = []int{2, 1, 3, 4, 6, 16, 255}
+
+func runC15() {
+	m := DrawMesh(3, 7, []string{"chain", "tree", "ring", "random", "diamond", "star"})
+	PlaceRoutes(m, true)
+	maxHops := hopLimits[simrt.Choose(len(hopLimits), "maxhops")]
+	for _, nd := range m.Nodes {
+		nd.Cfg.Routing.MaxHops = maxHops
+	}
+	simrt.Eventf("max_hops=%d", maxHops)
+	obs := WatchAdverts(m)
+	BootAndConverge(m)
+	// a second settling period: periodic announcements and replays have all happened
+	Settle(m)
+	for j, od := range m.Nodes {
+		dist := m.Dist(j)
+		for i, nd := range m.Nodes {
+			if i == j {
+				continue
+			}
+			if dist[i] > maxHops {
+				simrt.Probe("c15_agent_beyond_limit")
+				for _, r := range m.RoutesAt(i) {
+					if r.Origin == od.ID {
+						simrt.Failf("stored-beyond-hop-limit", "agent beyond max_hops stores a route of the origin", "max_hops=%d: %s is %d hops from %s but holds %s", maxHops, nd.Name, dist[i], od.Name, m.RouteStr(r))
+					}
+				}
+				for _, o := range *obs {
+					if o.Origin == od.ID && o.From == nd.Name {
+						simrt.Failf("forwarded-beyond-hop-limit", "agent beyond max_hops forwards the origin's announcement", "max_hops=%d: %s is %d hops from %s but sent its announcement (seq %d) to %s", maxHops, nd.Name, dist[i], od.Name, o.AdvSeq, o.To)
+					}
+				}
+			}
+		}
+	}
+	// no stored route records a path longer than the limit
+	for i, nd := range m.Nodes {
+		for _, r := range m.RoutesAt(i) {
+			if len(r.Path) > maxHops {
+				simrt.Failf("stored-beyond-hop-limit", "stored route travelled more than max_hops", "max_hops=%d: %s holds %s", maxHops, nd.Name, m.RouteStr(r))
+			}
+			if len(r.Path) == maxHops {
+				simrt.Probe("c15_route_at_exact_limit")
+			}
+		}
+	}
+	// within the limit the mesh still converges (the limit must not cut reachable agents off)
+	for j, od := range m.Nodes {
+		dist := m.Dist(j)
+		for i, nd := range m.Nodes {
+			if i == j || dist[i] > maxHops {
+				continue
+			}
+			found := false
+			for _, r := range m.RoutesAt(i) {
+				if r.Table == "agent" && r.Origin == od.ID {
+					found = true
+				}
+			}
+			if !found {
+				simrt.Failf("route-not-learned", "agent within max_hops did not learn the origin", "max_hops=%d: %s is %d hops from %s", maxHops, nd.Name, dist[i], od.Name)
+			}
+		}
+	}
+	m.StopAll()
+}
+
+func idsKey(ids []identity.AgentID) string {
+	b := make([]byte, 0, len(ids)*16)
+	for _, id := range ids {
+		b = append(b, id[:]...)
+	}
+	return string(b)
+}
+
+// advKind classifies a route advertisement seen on the wire.
+func advKind(m *Mesh, o AdvObs) string {
+	from := m.NodeByName(o.From)
+	if from != nil && from.ID == o.Origin {
+		return "origin"
+	}
+	if len(o.SeenBy) == 1 && from != nil && o.SeenBy[0] == from.ID {
+		return "replay" // full-table replay to a newly connected peer
+	}
+	return "forward"
+}
+
+// checkFloodCounts is the wire part of the C11 oracle.
+func checkFloodCounts(m *Mesh, obs []AdvObs, strictFrom, strictTo time.Duration) {
+	type k struct {
+		origin identity.AgentID
+		seq    uint64
+		from   string
+	}
+	perNeighbour := map[string]int{}
+	seenByVariants := map[k]map[string]bool{}
+	directed := 2*len(m.Edges) + 2 // + the raw peer's link
+	total := map[[2]string]int{}
+	for _, o := range obs {
+		if advKind(m, o) != "forward" || m.NodeByName(o.From) == nil {
+			continue // own announcements, replays, and frames injected by the raw peer itself
+		}
+		if o.At < strictFrom || o.At > strictTo {
+			continue
+		}
+		key := k{o.Origin, o.AdvSeq, o.From}
+		if seenByVariants[key] == nil {
+			seenByVariants[key] = map[string]bool{}
+		}
+		seenByVariants[key][idsKey(o.SeenBy)] = true
+		pn := fmt.Sprintf("%s|%d|%s>%s", m.NameOf(o.Origin), o.AdvSeq, o.From, o.To)
+		perNeighbour[pn]++
+		if perNeighbour[pn] > 1 {
+			simrt.Failf("forwarded-twice-to-neighbour", "announcement forwarded more than once to one neighbour", "origin %s seq %d forwarded %d times on %s>%s", m.NameOf(o.Origin), o.AdvSeq, perNeighbour[pn], o.From, o.To)
+		}
+		if len(seenByVariants[key]) > 1 {
+			simrt.Failf("processed-twice", "agent processed one announcement more than once", "%s forwarded origin %s seq %d with %d different seen-by lists (one per processing)", o.From, m.NameOf(o.Origin), o.AdvSeq, len(seenByVariants[key]))
+		}
+		tk := [2]string{m.NameOf(o.Origin), fmt.Sprint(o.AdvSeq)}
+		total[tk]++
+		if total[tk] > directed {
+			simrt.Failf("flood-not-bounded-by-links", "more forwards of one announcement than directed links", "origin %s seq %s: %d forwards, %d directed links", tk[0], tk[1], total[tk], directed)
+		}
+	}
+}
+
+func runC11() {
+	m := DrawMesh(2, 7, []string{"ring", "diamond", "random", "chain", "star", "tree"})
+	PlaceRoutes(m, false)
+	obs := WatchAdverts(m)
+	BootAndConverge(m)
+	CheckLoopFree(m, "after convergence")
+	// extra announcements on demand, in bursts, from several origins
+	bursts := simrt.Choose(4, "bursts")
+	for b := 0; b < bursts; b++ {
+		i := simrt.Choose(len(m.Nodes), "origin")
+		m.On(i, "trigger", func() { m.Nodes[i].A.TriggerRouteAdvertise() })
+		if simrt.Chance(1, 2, "gap") {
+			simrt.Sleep(time.Duration(1+simrt.Choose(3000, "gapms")) * time.Millisecond)
+		}
+	}
+	// duplicates: a raw peer re-delivers copies of announcements it has seen
+	var rp *RawPeer
+	host := -1
+	if simrt.Chance(1, 2, "rawdup") {
+		for i, nd := range m.Nodes {
+			if len(nd.Cfg.Listeners) > 0 {
+				host = i
+				break
+			}
+		}
+		if host >= 0 {
+			var err error
+			rp, err = m.AttachRawPeer(host, 0)
+			if err != nil {
+				simrt.Failf("harness", "raw peer attach failed", "%v", err)
+			}
+			simrt.Sleep(2 * time.Second)
+			n := 1 + simrt.Choose(4, "dups")
+			for d := 0; d < n && len(*obs) > 0; d++ {
+				o := (*obs)[simrt.Choose(len(*obs), "pick")]
+				if o.To != m.Nodes[host].Name && o.From != m.Nodes[host].Name {
+					continue
+				}
+				// re-encode the observed announcement unchanged
+				adv := &protocol.RouteAdvertise{OriginAgent: o.Origin, Sequence: o.AdvSeq, Routes: o.Routes,
+					EncPath: &protocol.EncryptedData{Data: protocol.EncodePath(o.Path)}, SeenBy: o.SeenBy}
+				rp.Send(&protocol.Frame{Type: protocol.FrameRouteAdvertise, StreamID: protocol.ControlStreamID, Payload: adv.Encode()})
+				simrt.Probe("c11_duplicate_injected")
+				simrt.Eventf("dup injected origin=%s seq=%d", m.NameOf(o.Origin), o.AdvSeq)
+			}
+		}
+	}
+	Settle(m)
+	strictTo := simrt.Elapsed()
+	CheckLoopFree(m, "after bursts")
+	checkFloodCounts(m, *obs, 0, strictTo)
+	// seen-cache expiry: let the cache (5 min TTL, cleaned every 2.5 min) expire,
+	// then re-deliver an old announcement: flooding must still terminate and
+	// stay loop-free (at-most-once is only demanded within the cache lifetime).
+	if simrt.Chance(1, 3, "expiry") {
+		simrt.Sleep(8 * time.Minute)
+		simrt.Probe("c11_seen_cache_expired")
+		before := len(*obs)
+		if rp != nil && !rp.Closed && len(*obs) > 0 {
+			o := (*obs)[simrt.Choose(before, "pick")]
+			adv := &protocol.RouteAdvertise{OriginAgent: o.Origin, Sequence: o.AdvSeq, Routes: o.Routes,
+				EncPath: &protocol.EncryptedData{Data: protocol.EncodePath(o.Path)}, SeenBy: o.SeenBy}
+			rp.Send(&protocol.Frame{Type: protocol.FrameRouteAdvertise, StreamID: protocol.ControlStreamID, Payload: adv.Encode()})
+			simrt.Probe("c11_duplicate_after_expiry")
+			simrt.Sleep(30 * time.Second)
+			// termination: the stale copy is forwarded at most once per directed link
+			cnt := map[string]int{}
+			for _, x := range (*obs)[before:] {
+				if x.Origin == o.Origin && x.AdvSeq == o.AdvSeq && advKind(m, x) == "forward" && m.NodeByName(x.From) != nil {
+					cnt[x.From+">"+x.To]++
+					if cnt[x.From+">"+x.To] > 1 {
+						simrt.Failf("flood-loops-after-expiry", "stale announcement circulates after seen-cache expiry", "origin %s seq %d sent %d times on %s", m.NameOf(o.Origin), o.AdvSeq, cnt[x.From+">"+x.To], x.From+">"+x.To)
+					}
+				}
+			}
+		}
+		Settle(m)
+		CheckLoopFree(m, "after expiry")
+		checkFloodCounts(m, *obs, strictTo+9*time.Minute, simrt.Elapsed())
+	}
+	if rp != nil {
+		rp.Close()
+	}
+	m.StopAll()
+}
+
+func runC14() {
+	m := DrawMesh(3, 7, []string{"ring", "diamond", "random", "chain", "tree", "star"})
+	PlaceRoutes(m, true)
+	iv := m.Nodes[0].Cfg.Routing.AdvertiseInterval
+	ttl := m.Nodes[0].Cfg.Routing.RouteTTL
+	obs := WatchAdverts(m)
+	// some agents join late so that they learn the mesh through replays
+	late := map[int]bool{}
+	for i := range m.Nodes {
+		if i > 0 && simrt.Chance(1, 4, "late") {
+			late[i] = true
+		}
+	}
+	for i := range m.Nodes {
+		if !late[i] {
+			m.Start(i)
+		}
+	}
+	simrt.Sleep(time.Duration(1+simrt.Choose(3, "lateafter")) * iv)
+	for i := range m.Nodes {
+		if late[i] {
+			m.Start(i)
+			simrt.Probe("c14_late_joiner")
+		}
+	}
+	// churn: link resets make relays replay their tables (and bump their counters)
+	resets := simrt.Choose(6, "resets")
+	for r := 0; r < resets; r++ {
+		var live []*simnetLink
+		for _, l := range m.Net.Links() {
+			if l.Kind == "peer" && !l.Dead() {
+				live = append(live, l)
+			}
+		}
+		if len(live) == 0 {
+			break
+		}
+		l := live[simrt.Choose(len(live), "link")]
+		simrt.Eventf("reset link %d %s-%s", l.ID, l.DialNode, l.AccNode)
+		l.Reset()
+		simrt.Probe("c14_link_reset")
+		simrt.Sleep(time.Duration(500+simrt.Choose(8000, "churngap")) * time.Millisecond)
+	}
+	if !m.WaitConnected(5 * time.Minute) {
+		simrt.Failf("mesh-did-not-reconnect", "configured peers did not reconnect after the last fault", "edges=%v", m.Edges)
+	}
+	Settle(m)
+	stableFrom := simrt.Elapsed()
+	// stable phase: longer than the route TTL, sampled twice per interval
+	phase := 3*ttl + 2*iv
+	margin := 10 * time.Second
+	for simrt.Elapsed() < stableFrom+phase {
+		simrt.Sleep(iv / 2)
+		now := simrt.Elapsed()
+		for j, od := range m.Nodes {
+			// the origin's most recent own announcement older than the margin
+			var lastAnn time.Duration = -1
+			for _, o := range *obs {
+				if o.Origin == od.ID && o.From == od.Name && o.At >= stableFrom && o.At <= now-margin && o.At > lastAnn {
+					lastAnn = o.At
+				}
+			}
+			orig := m.OriginatedBy(j)
+			want := []string{"agent|" + od.Name}
+			for _, c := range orig.CIDR {
+				want = append(want, "cidr|"+c)
+			}
+			for _, d := range orig.Domain {
+				want = append(want, "domain|"+d)
+			}
+			for _, f := range orig.Forward {
+				want = append(want, "forward|"+f)
+			}
+			for i, nd := range m.Nodes {
+				if i == j {
+					continue
+				}
+				newest := map[string]time.Duration{}
+				for _, r := range m.RoutesAt(i) {
+					if r.Origin != od.ID {
+						continue
+					}
+					k := r.Table + "|" + r.Key
+					at := r.LastUpdate.Sub(simrtEpoch())
+					if cur, ok := newest[k]; !ok || at > cur {
+						newest[k] = at
+					}
+				}
+				for _, w := range want {
+					at, ok := newest[w]
+					if !ok {
+						simrt.Failf("live-origin-route-lost", "route of a live connected announcing origin disappeared", "%s lost %s of %s at t=%v (stable since %v, ttl %v)", nd.Name, w, od.Name, now, stableFrom, ttl)
+					}
+					if lastAnn >= 0 && at < lastAnn {
+						simrt.Failf("announcement-did-not-refresh", "origin announcement did not renew a receiver's copy", "%s: %s of %s last updated at %v but %s announced at %v (now %v)", nd.Name, w, od.Name, at, od.Name, lastAnn, now)
+					}
+				}
+			}
+		}
+		simrt.Probe("c14_stable_sample")
+	}
+	m.StopAll()
+}
+
+type simnetLink = simnet.Link
+
+func simrtEpoch() time.Time { return time.Now().Add(-simrt.Elapsed()) }
+
+var setSizes = []int{3, 0, 1, 40, 254, 255, 256, 257, 300, 511, 512, 600}
+
+func runC06() {
+	m := DrawMesh(2, 4, []string{"chain", "star", "ring"})
+	dyn := map[int][]string{}
+	for j, nd := range m.Nodes {
+		if j > 0 && !simrt.Chance(2, 3, "has-routes") {
+			continue
+		}
+		nc := setSizes[simrt.Choose(len(setSizes), "ncidr")]
+		nd.Cfg.Exit.Enabled = true
+		for k := 0; k < nc; k++ {
+			if k%7 == 3 {
+				nd.Cfg.Exit.Routes = append(nd.Cfg.Exit.Routes, fmt.Sprintf("fd%02x:%x::/48", j+1, k+1))
+			} else {
+				nd.Cfg.Exit.Routes = append(nd.Cfg.Exit.Routes, fmt.Sprintf("10.%d.%d.%d/32", 10+j, k/250, k%250))
+			}
+		}
+		if simrt.Chance(1, 2, "domains") {
+			ndm := setSizes[simrt.Choose(len(setSizes)-3, "ndom")]
+			for k := 0; k < ndm; k++ {
+				name := fmt.Sprintf("h%d.n%d.example.com", k, j)
+				if k%11 == 7 { // long names
+					name = fmt.Sprintf("%s.%s", string(make63('a'+byte(k%26))), name)
+				}
+				if k%5 == 1 {
+					name = "*." + name
+				}
+				nd.Cfg.Exit.DomainRoutes = append(nd.Cfg.Exit.DomainRoutes, name)
+			}
+		}
+		if simrt.Chance(1, 3, "forwards") {
+			nf := setSizes[simrt.Choose(len(setSizes)-3, "nfwd")]
+			for k := 0; k < nf; k++ {
+				nd.Cfg.Forward.Endpoints = append(nd.Cfg.Forward.Endpoints, struct {
+					Key    string `yaml:"key,omitempty"`
+					Target string `yaml:"target,omitempty"`
+				}{Key: fmt.Sprintf("svc-%d-%d", j, k), Target: fmt.Sprintf("192.0.2.%d:%d", 1+k%200, 8000+k)})
+			}
+		}
+		total := len(nd.Cfg.Exit.Routes) + len(nd.Cfg.Exit.DomainRoutes) + len(nd.Cfg.Forward.Endpoints)
+		simrt.Eventf("%s originates cidr=%d domain=%d forward=%d", nd.Name, len(nd.Cfg.Exit.Routes), len(nd.Cfg.Exit.DomainRoutes), len(nd.Cfg.Forward.Endpoints))
+		if total > 255 {
+			simrt.Probe("c06_origin_over_255_routes")
+		}
+		if total == 255 || total == 254 {
+			simrt.Probe("c06_origin_at_count_limit")
+		}
+	}
+	WatchAdverts(m) // fails loudly on any advertisement that does not decode
+	if len(m.Nodes) >= 3 && simrt.Chance(1, 3, "late-joiner") {
+		// one agent joins late and learns every set through full-table replays
+		lateIdx := 1 + simrt.Choose(len(m.Nodes)-1, "late")
+		for i := range m.Nodes {
+			if i != lateIdx {
+				m.Start(i)
+			}
+		}
+		Settle(m)
+		m.Start(lateIdx)
+		simrt.Probe("c06_late_joiner_replay")
+		if !m.WaitConnected(3 * time.Minute) {
+			simrt.Failf("mesh-did-not-connect", "configured peers did not connect without faults", "edges=%v", m.Edges)
+		}
+		Settle(m)
+	} else {
+		BootAndConverge(m)
+	}
+	// dynamic routes added at run time on top of the configured set
+	for j, nd := range m.Nodes {
+		if !nd.Cfg.Exit.Enabled || !simrt.Chance(1, 3, "dynamic") {
+			continue
+		}
+		n := 1 + simrt.Choose(4, "ndyn")
+		for k := 0; k < n; k++ {
+			cidr := fmt.Sprintf("172.%d.%d.0/24", 16+j, k)
+			m.On(j, "manage", func() {
+				if _, err := nd.A.ManageRoute("add", cidr, 0); err != nil {
+					simrt.Failf("harness", "ManageRoute add failed", "%v", err)
+				}
+			})
+			dyn[j] = append(dyn[j], CanonCIDR(cidr))
+			simrt.Probe("c06_dynamic_route_added")
+		}
+	}
+	Settle(m)
+	Settle(m)
+	for j, od := range m.Nodes {
+		o := m.OriginatedBy(j)
+		want := map[string]bool{"agent|" + od.Name: true}
+		for _, c := range o.CIDR {
+			want["cidr|"+c] = true
+		}
+		for _, c := range dyn[j] {
+			want["cidr|"+c] = true
+		}
+		for _, d := range o.Domain {
+			want["domain|"+d] = true
+		}
+		for _, f := range o.Forward {
+			want["forward|"+f] = true
+		}
+		for i, nd := range m.Nodes {
+			if i == j {
+				continue
+			}
+			got := map[string]bool{}
+			for _, r := range m.RoutesAt(i) {
+				if r.Origin == od.ID {
+					got[r.Table+"|"+r.Key] = true
+				}
+			}
+			missing, extra := 0, 0
+			exM, exE := "", ""
+			for _, w := range SortedKeys(want) {
+				if !got[w] {
+					missing++
+					if exM == "" {
+						exM = w
+					}
+				}
+			}
+			for _, g := range SortedKeys(got) {
+				if !want[g] {
+					extra++
+					if exE == "" {
+						exE = g
+					}
+				}
+			}
+			if extra > 0 {
+				simrt.Failf("route-set-altered", "receiver decoded routes the origin never announced", "%s holds %d routes of %s that it does not originate (e.g. %s); originated %d", nd.Name, extra, od.Name, exE, len(want))
+			}
+			if missing > 0 {
+				cls := "route-set-truncated"
+				if len(got) == 0 {
+					cls = "route-set-dropped"
+				}
+				simrt.Failf(cls, "receiver did not learn the complete originated set", "%s holds %d of %d routes of %s (first missing %s)", nd.Name, len(got), len(want), od.Name, exM)
+			}
+		}
+	}
+	m.StopAll()
+}
+
+func make63(c byte) []byte {
+	b := make([]byte, 63)
+	for i := range b {
+		b[i] = c
+	}
+	return b
+}
